@@ -131,6 +131,11 @@ pub fn short_file(file: &str) -> String {
 /// message prefix with the volatile parts removed: digits collapsed, quotes dropped, at most 48
 /// characters, blanks replaced by '-'
 pub fn short_msg(msg: &str) -> String {
+    // the text of the error carried by an unwrap of Err varies with the input: not part of the key
+    let msg = match msg.find("on an `Err` value") {
+        Some(i) => &msg[..i + "on an `Err` value".len()],
+        None => msg,
+    };
     let mut out = String::new();
     let mut last_digit = false;
     for c in msg.chars() {
